@@ -29,6 +29,7 @@
 Not decided: exactness on acyclic structures as a numerical statement (only the agreement of the message sets above).
 """
 import ast
+import re
 
 from . import _logrules as LR
 from ..srcmodel import AnalysisError, U, calls_in
@@ -133,6 +134,7 @@ def run(ctx):
     check_reiterable_sets(ctx)
     ctx.floor('returned-table constructions', n_ret, 2)
     check_gbp_sets(ctx)
+    check_saturated_sets(ctx)
     check_call_local_caches(ctx, [gbp, lbp, cm, repo.nfunc(RG, 'RegionGraph.hazan_peng_shashua')])
     ctx.floor('exp sites', sum(1 for o in ctx.obligations if o.rule == 'exp-normalised'), 2)
 
@@ -547,6 +549,42 @@ def check_gbp_sets(ctx):
     ctx.ob('gbp-message-sets', fi, Nd[4], Nd[3] != Dd[3],
            'N is built around the sending region and D around the receiving region of a message (different index positions)',
            construct='centres of N and D')
+
+
+def check_saturated_sets(ctx):
+    """the belief sets of the SATURATED region-graph propagation (minimal=False): B[r] holds the messages entering the down-set of r from
+    outside - for r itself and for EVERY descendant rd of r the parents of rd outside the down-set.  Judged on the one thing the spellings
+    differ in: where the receiving region rd ranges - over r's descendants (transitively), not only over its children."""
+    fi = ctx.repo.func(RG, 'RegionGraph.build_graph')
+    n = 0
+    for node in ast.walk(fi.node):
+        # comprehension form:  B[r] = [(ru, rd) for rd in <S> for ru in ..]      loop form:  for rd in <S>: .. B[r].append((ru, rd))
+        cands = []
+        if isinstance(node, ast.Assign) and len(node.targets) == 1 and isinstance(node.targets[0], ast.Subscript) and U(node.targets[0].value) == 'B' \
+                and isinstance(node.value, (ast.ListComp, ast.SetComp)) and isinstance(node.value.elt, ast.Tuple) and len(node.value.elt.elts) == 2:
+            r = U(node.targets[0].slice)
+            rd = U(node.value.elt.elts[1])
+            for g in node.value.generators:
+                if U(g.target) == rd and rd != r:
+                    cands.append((node, r, rd, g.iter))
+        if isinstance(node, ast.For) and isinstance(node.target, ast.Name):
+            for c in ast.walk(node):
+                if isinstance(c, ast.Call) and isinstance(c.func, ast.Attribute) and c.func.attr in ('append', 'add') and isinstance(c.func.value, ast.Subscript) \
+                        and U(c.func.value.value) == 'B' and len(c.args) == 1 and isinstance(c.args[0], ast.Tuple) and len(c.args[0].elts) == 2 \
+                        and U(c.args[0].elts[1]) == node.target.id and U(c.func.value.slice) != node.target.id:
+                    cands.append((node, U(c.func.value.slice), node.target.id, node.iter))
+        for where, r, rd, it in cands:
+            t = U(it).replace(' ', '')
+            deep = 'descendants' in t or 'downp' in t
+            shallow = re.search(r'successors\(|self\.children\[|\.neighbors\(', t) is not None
+            if not deep and not shallow:
+                raise AnalysisError('build_graph: the receiving regions of B[%s] range over `%s`, which is in no recognised form' % (r, U(it)[:60]))
+            n += 1
+            ctx.ob('gbp-message-sets', fi, where, deep and not (shallow and not deep),
+                   'B[%s] collects the messages entering EVERY descendant of %s from outside its down-set; the receiving region `%s` ranges over `%s`%s'
+                   % (r, r, rd, U(it)[:60], '' if deep else ' - the children only: messages into grandchildren are dropped (region graphs of three or more levels)'),
+                   construct='receiving regions of B (saturated)')
+    ctx.floor('saturated belief sets of the region graph', n, 1)
 
 
 def check_call_local_caches(ctx, funcs):
